@@ -1174,3 +1174,24 @@ _CM_NEW = """        (Sign::Positive, Sign::Positive) => compare_magnitude(&a.di
 benign('benign-c12-magnitude-helper', 'C12', 'crates/erltf/src/term.rs', _CM_OLD, _CM_NEW + _CM_HELPER % '0')
 canary('c12-magnitude-helper-skips-lsd', 'C12', 'crates/erltf/src/term.rs', _CM_OLD, _CM_NEW + _CM_HELPER % '1', 'lsb-first')
 canary('c12-magnitude-helper-ascending', 'C12', 'crates/erltf/src/term.rs', _CM_OLD, _CM_NEW + (_CM_HELPER % '0').replace('.rev()', ''), 'lsb-first')
+benign('benign-c16-advance-helper', 'C16', PA, "            self.next_id.store(next_id, Ordering::Relaxed);\n", "            self.bump(next_id);\n",
+       more=[(PA, "    pub fn node_name(&self) -> &Atom {", "    fn bump(&self, next_id: u32) {\n        self.next_id.store(next_id, Ordering::Relaxed);\n    }\n\n    pub fn node_name(&self) -> &Atom {")])
+benign('benign-c09-trace-payload-size', 'C09', 'crates/edp_client/src/fragmentation.rs', "        self.last_update = Instant::now();\n\n        if fragment_id == 0 {", "        self.last_update = Instant::now();\n        trace!(\"fragment {} carries {} bytes\", fragment_id, data.len());\n\n        if fragment_id == 0 {")
+benign('benign-c10-local-ext-matches-guard', 'C10', DEC, "    // Calculate how many bytes the nested term consumed\n    let nested_len = input.len() - remaining.len();", """    if !matches!(term, OwnedTerm::Pid(_) | OwnedTerm::Port(_) | OwnedTerm::Reference(_)) {
+        return Ok((remaining, term));
+    }
+    // Calculate how many bytes the nested term consumed
+    let nested_len = input.len() - remaining.len();""")
+benign('benign-c12-unsigned-abs', 'C12', 'crates/erltf/src/term.rs', "        let abs_i = i.wrapping_neg() as u64;", "        let abs_i = i.unsigned_abs();",
+       more=[('crates/erltf/src/borrowed.rs', "        let abs_i = i.wrapping_neg() as u64;", "        let abs_i = i.unsigned_abs();")])
+benign('benign-c01-u32-from-le-bytes', 'C01', DEC, """    Some(
+        big.digits
+            .iter()
+            .take(4)
+            .rev()
+            .fold(0u32, |acc, &d| (acc << 8) | u32::from(d)),
+    )""", """    let mut bytes = [0u8; 4];
+    for (slot, &d) in bytes.iter_mut().zip(big.digits.iter()) {
+        *slot = d;
+    }
+    Some(u32::from_le_bytes(bytes))""")
